@@ -249,3 +249,37 @@ CONTRACTS[GP + 'GraphProcessor.get_graph@selection-used-values'] = dict(
     modifies=[],
     no_frame=True,
 )
+
+# ---- tail of GraphProcessor.get_graph: imputation of unused variables and removal of fixed positions (C07, C16, C01) ----
+INACT = 'ite(des_vars[i].is_discrete, 0, (des_vars[i].bounds[0] + des_vars[i].bounds[1]) / 2)'
+CONTRACTS[GP + 'GraphProcessor.get_graph@imputation-tail'] = dict(
+    properties=['C07', 'C16', 'C01'],
+    types={'self': 'Ref[GraphProcessor]', 'des_var_values': 'List[Real]', 'create': 'Bool'},
+    start_at='is_active = [used_value is not None for used_value in used_values]',
+    live={'used_values': 'List[Optional[Real]]', 'des_vars': 'List[Ref[DesVar]]', 'graph_instance': 'Optional[Ref[DSGInst]]'},
+    returns='Tuple[Optional[Ref[DSGInst]],List[Optional[Real]],List[Bool]]',
+    locals={'is_active': 'List[Bool]'},
+    requires={'one-definition-per-value': 'len(des_vars) == len(used_values)',
+              'domains-set': 'forall(i, 0, len(des_vars), des_vars[i]._opts is not None or des_vars[i]._bounds is not None)'},
+    defs={'inact': (('i',), INACT)},
+    calls={'self._get_inactive_value': GP + 'GraphProcessor._get_inactive_value',
+           'graph_instance.copy': dict(params=[], returns='Ref[DSGInst]', modifies=[], assumed=True)},
+    loops={'for i, used_value in enumerate(used_values)': dict(index='k', invariant={
+        'len': 'len(used_values) == len(old(used_values)) and len(is_active) == len(used_values)',
+        'activeness': 'forall(j, 0, len(is_active), is_active[j] == (old(used_values)[j] is not None))',
+        'imputed-so-far': 'forall(j, 0, k, used_values[j] is not None and used_values[j] == ite(old(used_values)[j] is None, inact(j), old(used_values)[j]))',
+        'rest-untouched': 'forall(j, k, len(used_values), used_values[j] == old(used_values)[j])',
+    })},
+    ensures={
+        'one-activeness-flag-per-reported-value': ('property', 'len(result[1]) == len(result[2])'),
+        'every-reported-value-set': ('property', 'forall(p, 0, len(result[1]), result[1][p] is not None)'),
+        'inactive-variables-report-canonical-value': ('property',
+            'forall(p, 0, len(result[1]), exists(i, 0, len(des_vars), not (i in self._fixed_values) and result[2][p] == (old(used_values)[i] is not None) and '
+            'result[1][p] == ite(old(used_values)[i] is None, inact(i), old(used_values)[i])))'),
+        'every-free-variable-reported': ('property',
+            'forall(i, 0, len(des_vars), implies(not (i in self._fixed_values), exists(p, 0, len(result[1]), result[2][p] == (old(used_values)[i] is not None) and '
+            'result[1][p] == ite(old(used_values)[i] is None, inact(i), old(used_values)[i]))))'),
+    },
+    modifies=[],
+    no_frame=True,
+)
